@@ -264,3 +264,14 @@ theorem find?_append_false {α : Type} (p : α → Bool) (L : List α) (a : α) 
     cases p x <;> simp [ih]
 
 end Pharmpy.C16
+
+namespace Pharmpy.C16
+
+theorem csvParse_log (rs : List LogRec) (h : ∀ r ∈ rs, r.Safe) :
+    csvParse (logHeader ++ (rs.map LogRec.line).flatten)
+      = some (["path".toList, "time".toList, "severity".toList, "message".toList]
+          :: rs.map fun r => [r.path, r.date, r.severity, r.message]) := by
+  simp only [csvParse, List.foldl_append, fold_header, fold_log rs h]
+  simp [csvFinish, atRecordStart]
+
+end Pharmpy.C16
